@@ -369,11 +369,11 @@ static void thr_run(void) {
     }
     int pairs = 0;
     for (int a = 0; a < F_N; a++) for (int b = 0; b < F_N; b++) pairs += pair_seen[a][b];
-    vh_count_dyn("distinct_concurrent_api_pairs_observed", (uint64_t)pairs);
-    vh_count_dyn("api_pairs_possible", F_N * F_N);
+    vh_count_dyn("max_distinct_concurrent_api_pairs_observed_by_one_worker", (uint64_t)pairs);
+    vh_count_dyn("max_api_pairs_possible", F_N * F_N);
     vh_count_dyn("thread_workloads_compared_with_solo", g_thread_workloads);
     vh_count_dyn("runs", g_runs);
-    vh_set_rule("each case is one run of N threads (N in 2..16) released by a barrier, each executing a seeded random workload over the public API on thread-private items; ThreadSanitizer reports with a libcbor frame, and any difference between a thread's result digest and the digest of the same workload run alone, are violations; non-trivial = the run completed; distinct by hash of (N, ops, seed). distinct_concurrent_api_pairs_observed counts (function A in one thread overlapping function B in another) pairs actually seen by rdtsc stamps");
+    vh_set_rule("each case is one run of N threads (N in 2..16) released by a barrier, each executing a seeded random workload over the public API on thread-private items; ThreadSanitizer reports with a libcbor frame, and any difference between a thread's result digest and the digest of the same workload run alone, are violations; non-trivial = the run completed; distinct by hash of (N, ops, seed). max_distinct_concurrent_api_pairs_observed_by_one_worker counts (function A in one thread overlapping function B in another) pairs actually seen by rdtsc stamps");
   } else if (is17 && !strcmp(st, "segment")) {
     uint64_t runs = O.budget ? O.budget : (O.thorough ? 400 : 48);
     for (uint64_t u = 0; u < runs; u++) {
